@@ -45,6 +45,11 @@ def correspond(ctx, cases, fields, stream, canon=None, timeout_ms=4000, skip=Non
             # exponential backtracking on an ambiguous spec: neither side is compared (C03 judges liveness)
             ctx.timeouts += 1
             continue
+        if a["outcome"][0] in ("crash", "died", "stackoverflow") and b["outcome"][0] not in ("model-error",):
+            # a runtime error is never one of the documented outcomes, whatever the property
+            ctx.violation("runtime-error", "argv %r (spec %r, env %r): the library dies with %r" %
+                          (c["argv"], c["root"].get("spec"), c.get("env"), a["outcome"]), case=c)
+            continue
         d = diff_obs(a, b, fields)
         if d:
             ctx.mismatch("Impl and model differ on %s (%s)" % (",".join(d), stream), case=c,
